@@ -27,7 +27,7 @@ Ev == Rec[l]
 
 Init == l = 1 /\ snap = [none |-> TRUE] /\ kind = "none"
 Next == /\ l <= Len(Rec)
-        /\ Ev.ev \in {"FInit", "Snap", "Closed", "Dropped", "Op", "Est", "Chain", "Hammer", "Locks", "Quiesce", "Foreign"}
+        /\ Ev.ev \in {"FInit", "Snap", "Closed", "Dropped", "Op", "Est", "Chain", "Hammer", "Locks", "Quiesce", "Foreign", "ClearLoad"}
         /\ l' = l + 1 /\ snap' = Ev /\ kind' = Ev.ev
 Spec == Init /\ [][Next]_<<l, snap, kind>>
 
@@ -104,6 +104,12 @@ FQuiesce == (kind = "Quiesce") =>
     /\ snap.len = Len(snap.store)
 \* C02 / C18 under real parallelism: get_mut of a key never hands out the entry of the key it shares its index with
 FForeign == (kind = "Foreign") => snap.foreign = 0
+
+\* C11 / C17 under real parallelism: clear() while other threads look up (nothing is buffered, so D7 does not apply):
+\* afterwards nothing is resident or charged, and the counters hold the lookups made since the reset -- not one from before
+FClearLoad == (kind = "ClearLoad") =>
+    /\ snap.store = <<>> /\ snap.costs = <<>> /\ snap.used = 0 /\ snap.len = 0
+    /\ snap.lower <= snap.hitmiss /\ snap.hitmiss <= snap.upper
 
 Accepted ==
     IF TLCGet("stats").diameter - 1 = Len(Rec) THEN TRUE
